@@ -65,6 +65,7 @@ const (
 	kEmpty      = "empty"      // an empty answer
 	kWrong0     = "wrong0"     // first body is not the block's
 	kWrongLast  = "wrongLast"  // last body is not the block's
+	kHollow     = "hollow"     // as many bodies as requested, each an EMPTY transaction list (requests only hold non-empty blocks)
 	kDup        = "dup"        // the previous answer packet again, then the answer
 	kUnsol      = "unsol"      // a batch nobody asked for, then the answer
 	kTimeout    = "timeout"    // never answered
@@ -430,7 +431,7 @@ func (r *runB) handleP1(q *reqB) {
 	if len(q.nums) >= 2 {
 		alts = append(alts, kPart)
 	}
-	alts = append(alts, kEmpty, kWrong0)
+	alts = append(alts, kEmpty, kWrong0, kHollow)
 	if len(q.nums) >= 2 {
 		alts = append(alts, kWrongLast)
 	}
@@ -458,6 +459,9 @@ func (r *runB) handleP1(q *reqB) {
 	case kWrongLast:
 		r.send("P1", r.wrongOf(q, len(q.nums)-1), "answer with a wrong last body")
 		r.tag("wrong-body")
+	case kHollow:
+		r.send("P1", make([][]*types.Transaction, len(q.nums)), "answer of empty bodies for non-empty blocks")
+		r.tag("hollow-bodies")
 	case kDup:
 		r.send("P1", r.lastAnswer, "previous answer again")
 		r.settle()
